@@ -375,6 +375,11 @@ def p_len(I, n, pos, kw):
             r = p_len(I, n, [p], {})
             out = sym.add(out, r.e)
         return Sc(out)
+    if isinstance(v, ObjV) and v.cls:
+        c = I.p.classes.get(v.cls)
+        m = c.lookup("__len__", I.p) if c is not None else None
+        if m is not None:
+            return I.call_function(m, [v], {}, n)
     if isinstance(v, ObjV) and v.tag == "hk_matching":
         if "len_expr" in v.attrs:
             return Sc(v.attrs["len_expr"])
